@@ -427,7 +427,15 @@ class Sym:
         return Sym(z3.ToReal(_trunc_term(t)))
 
     def rint(self):
-        raise TypeError("rint of a symbolic value is not modelled")
+        """round to nearest, ties to even (numpy.rint), exact over the reals"""
+        t = _num(self.t)
+        if z3.is_int(t):
+            return Sym(t)
+        f = z3.ToInt(t)
+        d = t - z3.ToReal(f)
+        half = z3.RealVal(1) / 2
+        r = z3.If(d < half, f, z3.If(d > half, f + 1, z3.If(f % 2 == 0, f, f + 1)))
+        return Sym(z3.ToReal(r))
 
     def conjugate(self):
         return self
